@@ -26,20 +26,21 @@ Definition clean (n : var) : Prop := NoDup (map fst (var_ivs n)).
 
 Section CgSem.
   Variable g0 : mg nat.
+  Context {D : Type} {eqD : EqB D}.
   Variable U : Type.
-  Variable f : nat -> (nat -> bool) -> U -> bool.
-  Variable rho : nat -> bool.
+  Variable f : nat -> (nat -> D) -> U -> D.
+  Variable rho : nat * bool -> D.
   Hypothesis f_local : local g0 U f.
   Variable order : list nat.
   Hypothesis order_ok : is_topo g0 order = true.
   Variable u : U.
 
-  Definition sol (ivs : list (nat * bool)) : nat -> bool := solve U f rho order ivs u.
-  Definition val (n : var) : bool := value U f rho order n u.
+  Definition sol (ivs : list (nat * bool)) : nat -> D := solve U f rho order ivs u.
+  Definition val (n : var) : D := value U f rho order n u.
   Definition holds (p : var * (nat * bool)) : Prop := val (fst p) = lit rho (snd p).
 
   Lemma entry_true_holds p : entry_true U f rho order u p = true <-> holds p.
-  Proof. unfold entry_true, holds, val. split; [apply eqb_prop|intros ->; apply eqb_reflx]. Qed.
+  Proof. unfold entry_true, holds, val. split; [apply eqb_true|intros ->; apply eqb_refl]. Qed.
 
   Lemma event_true_holds ev : event_true U f rho order ev u = true <-> forall p, In p ev -> holds p.
   Proof. unfold event_true. rewrite forallb_forall. split; intros H p Hp; apply entry_true_holds; apply H; exact Hp. Qed.
